@@ -161,7 +161,9 @@ def run(tier, seed, replay=None):
     rc, gen = sh("%s gen %d %d %d" % (runner, bound, nrandom, seed), stdin=("\n".join(header) + "\n").encode(), timeout=600)
     cases = [l for l in gen.split("\n") if l and not (l.startswith("MODE\t") or l.startswith("CFG\t"))]
     # the witness of DESIGN.md section 4 row 12 always runs first (it is the model's refutation witness with all rules as breakpoints)
-    corpus = ["ident\t1\t0,1,2,3\tR,V,K,R\tCCCPPPPCCCCPPCCCCPPPP" + ("" if mode == "literal" else "PPPCCCPPPP")]
+    corpus = ["ident\t1\t0,1,2,3\tR,V,K,R\tCCCPPPPCCCCPPCCCCPPPP" + ("" if mode == "literal" else "PPPCCCPPPP"),
+              # coq/Debugger/Witness.v w2: cont twice, stale park token, re-run hangs with or without the repair
+              "ident\t1\t0,1,2,3\tR,V,K,K,R\tCCCPPPPCCCCPCCCCPPPPPPCCC"]
     mism, stats, known = run_shards(hbin, runner, header, corpus + cases, timeout=900 if tier == "quick" else 7200)
 
     spec_m = [m for m in mism if m["kind"] == "spec"]
@@ -194,6 +196,10 @@ def run(tier, seed, replay=None):
             res.known_finding(what)
         else:
             log("note (outside the proved class, see C17_full_statement_refuted_repaired; not listed in known_findings.json): " + what)
+    if stats.get("abort_panics", 0):
+        log("note: in %d forced schedules the parsing thread panicked after the listener's abort (vm.parse: fresh ParserState from the abort, "
+            "parser_state.rs queue[index]); run() then returns PreviousRunPanic and does not start the new session (modelled: PDead/ORunPanic)"
+            % stats["abort_panics"])
     proof_violation(bool(spec_m))
 
     res.coverage.update({
@@ -209,6 +215,7 @@ def run(tier, seed, replay=None):
         "hangs_observed": stats.get("hangs", 0),
         "known_undisciplined_hangs": len(known),
         "step_timeouts": stats.get("timeouts", 0),
+        "abort_panics_observed": stats.get("abort_panics", 0),
         "samples": corpus + cases[:3],
         "runner_cases": stats.get("cases", 0),
         "mismatches": len(mism),
